@@ -88,6 +88,24 @@ impl AssemblyBuffer {
     // unwrap: u32 should fit into usize
     let from_byte = start_frag_from_0 * frag_size;
 
+    // The DATAFRAG deserializer validates each submessage only against itself.
+    // Here we must check it against this assembly buffer, which was sized by the
+    // first DATAFRAG of the sample. Otherwise the slicing and bitmap updates below
+    // would panic.
+    if start_frag_from_0 + frags_in_submessage > self.fragment_count
+      || from_byte > self.buffer_bytes.len()
+    {
+      error!(
+        "Received DATAFRAG does not fit the sample being assembled: fragment_starting_num={} \
+         fragments_in_submessage={} but fragment_count={}, buffer length={}. Discarding.",
+        fragment_starting_num,
+        frags_in_submessage,
+        self.fragment_count,
+        self.buffer_bytes.len()
+      );
+      return;
+    }
+
     // Last fragment might be smaller than fragment size
     // Copy reported number of fragments, or as much data as there is, whichever
     // ends first.
